@@ -1,7 +1,7 @@
 (* Property C12: standard containers behave as their abstract models under any operation sequence.
    Only the property theorems, each closed by [exact] of a lemma and followed by Print Assumptions. *)
 From Coq Require Import ZArith List Bool Lia Arith Permutation.
-From C12 Require Import Gen Model ProofsBase ProofsVec ProofsSeq ProofsAL ProofsHM1 ProofsHM2 ProofsHM3 ProofsHM4 ProofsHM5 ProofsHash ProofsSB ProofsSBA ProofsDL.
+From C12 Require Import Gen Model ProofsBase ProofsVec ProofsSeq ProofsAL ProofsHM1 ProofsHM2 ProofsHM3 ProofsHM4 ProofsHM5 ProofsHM6 ProofsHash ProofsSB ProofsSBA ProofsOOM ProofsDL.
 Import ListNotations.
 
 (* ---- vector: every operation of a well-formed vector returns what the list operation returns, leaves a
@@ -177,6 +177,29 @@ Theorem C12_hashmap_rehash_preserves_bindings :
 Proof. exact hm_rehash_op. Qed.
 Print Assumptions C12_hashmap_rehash_preserves_bindings.
 
+(* the observable behaviour does not depend on the hash function: two runs of the same history from related
+   states with two hash functions that both respect == return the same lookup results, values and lengths and end
+   with the same bindings.  What the theorem leaves free: the ORDER in which pairs() / erase-while-iterating list
+   the bindings (HList results are related by Permutation, as are the final binding lists), and the allocation
+   figures capacity()/bucketcount()/loadfactor(), which it does not mention. *)
+Theorem C12_hashmap_hash_independent :
+  forall (K V : Type) (kdflt : K) (vdflt : V) (keqb : K -> K -> bool) (h1 h2 : K -> Z),
+  (forall a b, keqb a b = keqb b a) ->
+  (forall a b c, keqb a b = true -> keqb b c = true -> keqb a c = true) ->
+  (forall a b, keqb a b = true -> h1 a = h1 b) -> (forall a b, keqb a b = true -> h2 a = h2 b) ->
+  forall (ops : list (hop K V)) (m1 m2 : hmap K V) (al : list (K * V)),
+  hm_R K V keqb h1 m1 al -> hm_R K V keqb h2 m2 al ->
+  hm_run K V kdflt vdflt keqb h1 ops m1 = Trap TrapOverflow \/
+  hm_run K V kdflt vdflt keqb h2 ops m2 = Trap TrapOverflow \/
+  exists m1' rs1 m2' rs2,
+    hm_run K V kdflt vdflt keqb h1 ops m1 = Ok (m1', rs1) /\
+    hm_run K V kdflt vdflt keqb h2 ops m2 = Ok (m2', rs2) /\
+    Forall2 (ret_rel K V) rs1 rs2 /\ Permutation (hm_abs K V m1') (hm_abs K V m2') /\
+    hm_len K V m1' = hm_len K V m2' /\
+    (forall k, hm_peek K V keqb h1 k m1' = hm_peek K V keqb h2 k m2').
+Proof. exact hm_hash_independent. Qed.
+Print Assumptions C12_hashmap_hash_independent.
+
 (* the model-level Overflow outcome of rehash (usize wrap in roundpow2) needs more than 2^62 buckets *)
 Theorem C12_hashmap_overflow_only_beyond_2p62 :
   forall (K V : Type) (kdflt : K) (vdflt : V) (keqb : K -> K -> bool) (khash : K -> Z),
@@ -195,6 +218,23 @@ Print Assumptions C12_hash_coherent_float.
 Theorem C12_hash_coherent_record : forall a1 f1 a2 f2 : Z, rec_eqb a1 f1 a2 f2 = true -> hash_rec a1 f1 = hash_rec a2 f2.
 Proof. exact hash_rec_coherent. Qed.
 Print Assumptions C12_hash_coherent_record.
+
+(* arrays (and records without __hash) fold the element hashes: element-wise related values hash alike whenever the
+   element hash respects the element relation - in particular arrays of floats under float == ; pointers, spans and
+   unions hash a function of exactly what == compares; a __hash record is coherent iff the user's method is. *)
+Theorem C12_hash_coherent_aggregates :
+  (forall (A : Type) (R : A -> A -> Prop) (h : A -> Z), (forall x y, R x y -> h x = h y) ->
+     forall xs ys, Forall2 R xs ys -> hash_array h xs = hash_array h ys) /\
+  (forall xs ys, Forall2 (fun a b => f_eqb a b = true) xs ys -> hash_array hash_float xs = hash_array hash_float ys) /\
+  (forall a f, hash_rec a f = hash_fold [hash_int a; hash_float f]) /\
+  (forall a b s, (a =? b)%Z = true -> hash_ptr a s = hash_ptr b s) /\
+  (forall (A : Type) (ueq : A -> A -> bool) (uh : A -> Z), (forall x y, ueq x y = true -> uh x = uh y) ->
+     forall x y, ueq x y = true -> hash_custom uh x = hash_custom uh y).
+Proof.
+  split; [exact hash_array_coherent|]. split; [exact hash_float_array_coherent|]. split; [exact hash_rec_is_fold|].
+  split; [exact hash_ptr_coherent|exact hash_custom_coherent].
+Qed.
+Print Assumptions C12_hash_coherent_aggregates.
 
 Theorem C12_hash_coherent_integer_boolean :
   (forall a b : Z, (a =? b)%Z = true -> hash_int a = hash_int b) /\
@@ -292,3 +332,64 @@ Theorem C12_list_observers : forall (T : Type) (dflt : T) (d : dlist T) (idx : l
   dl_wf T d idx -> dl_contents T d = Ok (vals T dflt (larena T d) idx).
 Proof. exact dl_observed. Qed.
 Print Assumptions C12_list_observers.
+
+(* ---- refusing allocators for vector, sequence, hashmap, list: these containers only use the raising allocation
+   entry points (xspanrealloc, xspanrealloc0, xspanalloc, new), so a refused request panics with 'out of memory'.
+   Under ANY allocator oracle each operation either behaves exactly as with an allocator granting everything (to
+   which all the refinement theorems above apply) or stops with the out-of-memory panic; there is no path that
+   continues with a half-updated container.  For the hashmap the two sizes the oracle is asked about are exactly the
+   node and bucket counts a successful rehash ends up with. *)
+Theorem C12_allocation_failure_aborts :
+  (forall (T : Type) (dflt : T) (teqb : T -> T -> bool) (ok : nat -> bool) (o : cop T) (v : vec T),
+     vec_step_a T dflt teqb ok o v = vec_step T dflt teqb o v \/ vec_step_a T dflt teqb ok o v = Trap TrapOOM) /\
+  (forall (T : Type) (dflt : T) (teqb : T -> T -> bool) (oki : bool) (ok : nat -> bool) (o : cop T) (s : seq T),
+     seq_step_a T dflt teqb oki ok o s = seq_step T dflt teqb o s \/ seq_step_a T dflt teqb oki ok o s = Trap TrapOOM) /\
+  (forall (K V : Type) (kdflt : K) (vdflt : V) (keqb : K -> K -> bool) (khash : K -> Z) (okn okb : nat -> bool) (o : hop K V) (m : hmap K V),
+     hm_step_a K V kdflt vdflt keqb khash okn okb o m = hm_step K V kdflt vdflt keqb khash o m \/
+     hm_step_a K V kdflt vdflt keqb khash okn okb o m = Trap TrapOOM) /\
+  (forall (T : Type) (teqb : T -> T -> bool) (okn : bool) (o : lop T) (l : dlist T),
+     dl_step_a T teqb okn o l = dl_step T teqb o l \/ dl_step_a T teqb okn o l = Trap TrapOOM).
+Proof.
+  split; [exact vec_step_a_dich|]. split; [exact seq_step_a_dich|]. split; [exact hm_step_a_dich|exact dl_step_a_dich].
+Qed.
+Print Assumptions C12_allocation_failure_aborts.
+
+Theorem C12_hashmap_rehash_request_sizes :
+  forall (K V : Type) (kdflt : K) (vdflt : V) (keqb : K -> K -> bool) (khash : K -> Z),
+  (forall a b, keqb a b = keqb b a) ->
+  forall (n : nat) (m m' : hmap K V), hm_inv K V keqb khash m ->
+  hm_rehash K V kdflt vdflt keqb khash n m = Ok m' ->
+  hm_rehash_sizes K V n m = Some (length (hbuckets K V m'), length (hnodes K V m')).
+Proof. exact hm_rehash_sizes_exact. Qed.
+Print Assumptions C12_hashmap_rehash_request_sizes.
+
+(* ---- destroy / __close: the container goes back to exactly its initial (zeroed) state, so every later operation
+   behaves as on a fresh container (no use after destroy: nothing of the old storage is reachable).  For the list the
+   released nodes stay in the model's arena marked dead; observably it is the fresh list and no later operation can
+   reach a dead node (the list refinement theorem excludes TrapMem). *)
+Theorem C12_destroy_resets :
+  (forall (T : Type) (dflt : T) (teqb : T -> T -> bool) (v : vec T),
+     vec_step T dflt teqb (ODestroy T) v = Ok (vec_empty T, RUnit T)) /\
+  (forall (T : Type) (dflt : T) (teqb : T -> T -> bool) (s : seq T),
+     seq_step T dflt teqb (ODestroy T) s = Ok (seq_empty T, RUnit T)) /\
+  (forall (K V : Type) (kdflt : K) (vdflt : V) (keqb : K -> K -> bool) (khash : K -> Z) (m : hmap K V),
+     hm_step K V kdflt vdflt keqb khash (HDestroy K V) m = Ok (hm_empty K V, HUnit K V)) /\
+  (forall b : sb, sb_step BDestroy b = Ok (sb_empty, BUnit)) /\
+  (forall (T : Type) (dflt : T) (teqb : T -> T -> bool) (d : dlist T) (idx : list nat), dl_wf T d idx ->
+     exists d', dl_step T teqb (LDestroy T) d = Ok (d', LUnit T) /\ dl_wf T d' [] /\ dl_contents T d' = Ok []).
+Proof.
+  split; [reflexivity|]. split; [reflexivity|]. split; [reflexivity|]. split; [reflexivity|].
+  intros T dflt teqb d idx W. exact (dl_destroy_fresh T dflt teqb d idx W).
+Qed.
+Print Assumptions C12_destroy_resets.
+
+(* write(a1, a2, ...) under a refusing allocator: the arguments before the first one that cannot be stored are
+   written, the returned count is exactly their total length, nothing else changes, the builder stays well formed *)
+Theorem C12_stringbuilder_write_many_allocation_failure :
+  forall (ok : nat -> bool) (parts : list (list Z)) (written : nat) (b : sb), sb_wf_a b ->
+  exists b' r k, sb_write_parts_a ok parts written b = Ok (b', r) /\ sb_wf_a b' /\ k <= length parts /\
+    sb_view b' = sb_view b ++ concat (firstn k parts) /\
+    ((k = length parts /\ r = BOkN true (written + length (concat parts))) \/
+     r = BOkN false (written + length (concat (firstn k parts)))).
+Proof. exact sb_write_parts_a_ok. Qed.
+Print Assumptions C12_stringbuilder_write_many_allocation_failure.
